@@ -212,7 +212,8 @@ func c21Classify(h []c21Rec) string {
 	wret := map[byte]int64{}   // when that write returned
 	breakIDs, closeIDs := map[int]bool{}, map[int]bool{}
 	firstEnd := int64(-1)
-	released := false
+	const never = int64(1) << 62
+	firstBreakCall, firstBreakRet, releaseCall := never, never, never
 	for _, x := range h {
 		switch x.Op.Kind {
 		case "write":
@@ -236,8 +237,12 @@ func c21Classify(h []c21Rec) string {
 			if firstEnd < 0 || x.Call < firstEnd {
 				firstEnd = x.Call
 			}
+			if x.Op.Kind == "break" {
+				firstBreakCall = min(firstBreakCall, x.Call)
+				firstBreakRet = min(firstBreakRet, x.Ret)
+			}
 		case "release":
-			released = true
+			releaseCall = x.Call
 		}
 	}
 	reads := []c21Rec{}
@@ -264,7 +269,10 @@ func c21Classify(h []c21Rec) string {
 		case x.ErrID > 0 && !breakIDs[x.ErrID] && !closeIDs[x.ErrID]:
 			return "read:error-never-set"
 		}
-		if x.ErrID > 0 && !breakIDs[x.ErrID] && len(breakIDs) == 0 && !released {
+		if x.N > 0 && firstBreakRet < x.Call {
+			return "read:data-delivered-after-break"
+		}
+		if x.ErrID > 0 && x.Ret < firstBreakCall && x.Ret < releaseCall {
 			// a close error: everything whose write had returned before this read began must be out
 			for b := range written {
 				if !seen[b] && wret[b] < x.Call {
@@ -995,14 +1003,26 @@ func c21(r *vkit.Run) {
 			return
 		}
 		r.SetMinDistinct(0)
-		if len(w.History) > 0 && !c21CheckHistory(r, &w.Plan, w.History, agg, "recorded history re-checked") {
-			return
+		// The recorded history is re-checked only to confirm the checker's judgement; the
+		// verdict of a replay comes from re-executing the plan against the current code.
+		recorded := "no recorded history"
+		if len(w.History) > 0 && !strings.HasPrefix(w.Note, "goroutine") {
+			switch porcupine.CheckOperationsTimeout(c21Model(w.Plan.Cap), c21ToOps(w.History), 30*time.Second) {
+			case porcupine.Illegal:
+				recorded = "recorded history is illegal under the model (" + c21Classify(w.History) + ")"
+			case porcupine.Ok:
+				recorded = "recorded history is LEGAL under the current model"
+			default:
+				recorded = "checker timeout on the recorded history"
+			}
 		}
+		fmt.Println("replay:", recorded)
 		for i := 0; i < 500; i++ { // schedules are not replayable: re-run the plan
 			if !c21RunPlan(r, &w.Plan, agg, fmt.Sprintf("re-execution %d of the plan", i)) {
 				return
 			}
 		}
+		r.Inconclusive("not reproduced in 500 re-executions of the plan (schedules cannot be replayed exactly); " + recorded)
 		return
 	}
 	n := r.N(2000, 60000)
